@@ -125,6 +125,8 @@ TickFails(e) ==
     \cup (IF ~e.exc /\ ~TreeShapeBad(e.obs, tree') /\ InvokedBad(e, invoked')
             THEN {"invoked"} ELSE {})
     \cup (IF ViewBad(e, tree) THEN {"view"} ELSE {})
+    \* the update object the director handed in comes back unmodified
+    \cup (IF e.updmut THEN {"update_object"} ELSE {})
     \cup (IF ~e.exc /\ e.obs.leaves # leaves' THEN {"leaves"} ELSE {})
     \cup (IF ~e.exc /\ ~TreeShapeBad(e.obs, tree') /\ SeenBad(e, seen') THEN {"seen"} ELSE {})
     \* the watcher step runs in the layer after the step director: it sees the
